@@ -88,13 +88,41 @@ def run(ctx):
                 regn = {"Jrcxz": "RCX", "Jecxz": "ECX"}.get(oc["mnemonic"])
                 okc = True
                 why = None
+                # per class of the counter: representative RCX values (zero; low half zero only; high half zero only;
+                # single low / middle / top bits; all ones) decide every test the handler makes on any view of RCX
+                views = {}
+                for o in rets:
+                    for c in o.path.conds:
+                        for x in H.leaves(c[0]):
+                            if x[0] == "reg" and U.reg_name(facts, x[2]) in ("RCX", "ECX", "CX", "CL"):
+                                views[x] = x[1]
+                for rcx in (0, 1, 0x8000_0000, 0xFFFF_FFFF, 0x1_0000_0000, 0xFFFF_FFFF_0000_0000, 1 << 63, (1 << 64) - 1):
+                    env = {x: rcx & ((1 << w_) - 1) for x, w_ in views.items()}
+                    want = (rcx & ((1 << width) - 1)) == 0
+                    seen_any = False
+                    for o in rets:
+                        cons = True
+                        for c in o.path.conds:
+                            if not any(H.mentions(c[0], x) for x in views):
+                                continue
+                            g = U.eval_term(c[0], env, o.path)
+                            if g is None:
+                                okc, why = False, "a test on the counter cannot be evaluated: %s" % A.show(c[0])[:60]
+                                continue
+                            if (c[1] == "==" and g != c[2]) or (c[1] == "!=" and g in c[2]):
+                                cons = False
+                                break
+                        if not cons:
+                            continue
+                        seen_any = True
+                        taken = bool(rip_writes(facts, o))
+                        if taken != want:
+                            okc, why = False, "RCX=%#x: %s, architecture %s" % (
+                                rcx, "taken" if taken else "not taken", "takes the branch" if want else "falls through")
+                    if not seen_any:
+                        okc, why = False, "no success path for RCX=%#x" % rcx
                 for o in rets:
                     taken = bool(rip_writes(facts, o))
-                    g = guard_on_reg(facts, o, width, regn)
-                    if g is None:
-                        okc, why = False, "no (%s == 0) test on the path (taken=%s)" % (regn, taken)
-                    elif g != taken:
-                        okc, why = False, "taken=%s under %s==0 is %s" % (taken, regn, g)
                     if not taken and U.effects(o):
                         ck.violation("C03.fallthrough", inst, "effects on the not-taken path", where=where,
                                      witness=[U.show_event(facts, e) for e in U.effects(o)])
